@@ -59,6 +59,9 @@ func execRun(bin string, s *spec.RunSpec, wallLimit time.Duration) *spec.RunResu
 			res.Harness = append(res.Harness, "bad result json: "+jerr.Error())
 		}
 		res.WallMs = wall.Milliseconds()
+		if os.Getenv("VSIM_MIERU_LOG") != "" {
+			os.Stderr.Write(stderr.Bytes())
+		}
 		return res
 	}
 	res.WallMs = wall.Milliseconds()
